@@ -67,6 +67,15 @@ class FSock:
         self.reset_by_shutdown = False
         self.ops = 0
         self.closed = False
+        self.connected_to = None     # address handed to connect()
+        self.so_error = 0            # what getsockopt(SO_ERROR) answers (BSD work-around path of try_connect)
+        self.inprogress = False      # a connect() of this socket has answered "in progress"
+        self.queue = []              # listener: connections waiting to be accepted
+        self.served = None           # accepted connection: did onaccept_tcp give it a flow?
+        if plan.get("dial"):
+            self.family = plan["dial"][2]
+        if plan.get("family"):
+            self.family = plan["family"]
 
     # -- helpers
     def _fault(self, kind):
@@ -82,36 +91,65 @@ class FSock:
         pass
 
     def getpeername(self):
+        # a connection that was reset between accept() and this call has no peer any more:
+        # Linux answers ENOTCONN (observed on the real kernel), macOS/BSD EINVAL
+        e = self.plan.get("peername_errno")
+        if e:
+            raise sock_err(e)
         return ("10.9.8.7", 4321)
 
     def getsockname(self):
         return ("127.0.0.1", 12300)
 
     def getsockopt(self, *a):
-        return 0
+        return self.so_error
 
     def close(self):
         self.closed = True
 
     def accept(self):
-        return self.w.pending_accept.pop(0)
+        if not self.queue:
+            # the listener plumbing handed over a listener on which nothing is waiting: a blocking
+            # accept() would hang the whole client; here it fails and the event is recorded
+            self.w.bad_accepts += 1
+            raise sock_err(errno.EAGAIN)
+        return self.queue.pop(0)
 
     def connect(self, addr):
         self.ops += 1
         self.connect_calls += 1
+        self.connected_to = addr
         if self.reset_by_shutdown:
             # Linux: shutdown(SHUT_WR) on a socket in SYN_SENT aborts the attempt (no FIN is ever sent);
             # a later connect() on the same socket starts a fresh connection
             self.reset_by_shutdown = False
             self.shutdown_called = False
+            self.inprogress = False
         steps = self.plan.get("connect", ["d"])
         st = steps[min(self.connect_calls - 1, len(steps) - 1)]
         self.w.rec["conn"] = st if st in ("d", "p", "k", "n", "x") else "n"
         self.last_conn = st
+        was_pending, win = self.inprogress, self.w.platform == "win32"
+        e = {"d": 0, "p": errno.EINPROGRESS, "k": errno.EISCONN, "n": self.plan.get("connect_errno", errno.ECONNREFUSED),
+             "x": errno.ENOMEM}[st]
+        if st == "p":
+            self.inprogress = True
+            if win:
+                # Windows: WSAEWOULDBLOCK, or EINVAL whose "real" error is 0 while the socket is still connecting
+                if self.plan.get("einval") and was_pending:
+                    self.so_error = 0
+                    raise sock_err(errno.EINVAL)
+                raise sock_err(10035)
+            # the first call answers EINPROGRESS, every further call while the attempt is pending EALREADY
+            raise sock_err(errno.EALREADY if was_pending else errno.EINPROGRESS)
+        self.inprogress = False
+        if self.plan.get("einval") and was_pending and st in ("d", "n", "x") and not win:
+            # BSD: connect() on a socket whose attempt has meanwhile finished answers EINVAL; the outcome
+            # (0 = connected, or the error) has to be fetched with getsockopt(SO_ERROR)
+            self.so_error = e
+            raise sock_err(errno.EINVAL)
         if st == "d":
             return
-        e = {"p": errno.EINPROGRESS, "k": errno.EISCONN, "n": self.plan.get("connect_errno", errno.ECONNREFUSED),
-             "x": errno.ENOMEM}[st]
         raise sock_err(e)
 
     def recv(self, n):
@@ -176,9 +214,16 @@ class Pipe:
         self.w = world
         self.buf = b""
         self.flushed = 0
+        self.eof = False            # the writing end has gone away: read() answers b"" once the buffer is empty
+        self.fail = None            # errno every read() fails with
+        self.eof_reads = 0
+        self.fail_reads = 0
 
     def fileno(self):
         return 5
+
+    def readable(self):
+        return bool(self.buf) or self.eof or self.fail is not None
 
     def write(self, b):
         if not self.w.eager and self.w.rng.random() < 0.2:
@@ -189,7 +234,13 @@ class Pipe:
         return len(b)
 
     def read(self, n):
+        if self.fail is not None:
+            self.fail_reads += 1
+            raise OSError(self.fail, "injected errno %d on the tunnel" % self.fail)
         if not self.buf:
+            if self.eof:
+                self.eof_reads += 1
+                return b""
             return None
         k = min(n, len(self.buf))
         if not self.w.eager and self.w.rng.random() < 0.3:
@@ -235,8 +286,34 @@ def frames_str(fr):
     return ";".join("%d,%s,%s" % (ch, CMDN.get(cmd, "OTHER%d" % cmd), digest(d)) for ch, cmd, d in fr)
 
 
+LISTEN_PORT = 12300          # FSock.getsockname(): the port the client's listeners are bound to
+AF4, AF6 = int(real_socket.AF_INET), int(real_socket.AF_INET6)
+DEFAULT_DIAL = ["10.0.0.1", 80, AF4]
+_V6_OK = []
+
+
+def v6_available():
+    """can this machine create and bind IPv6 sockets?  (helpers.islocal is run for real)"""
+    if not _V6_OK:
+        try:
+            t = real_socket.socket(real_socket.AF_INET6)
+            try:
+                t.bind(("::1", 0))
+            finally:
+                t.close()
+            _V6_OK.append(True)
+        except Exception:
+            _V6_OK.append(False)
+    return _V6_OK[0]
+
+
+def own_address(dial):
+    """is this destination the client's own listening socket (the connection C05 says is dropped)?"""
+    return dial[1] == LISTEN_PORT and dial[0] in ("127.0.0.1", "::1")
+
+
 class World:
-    def __init__(self, rng, maxc=65535, lbs=32768, latency=True):
+    def __init__(self, rng, maxc=65535, lbs=32768, latency=True, platform="linux"):
         import sshuttle.ssnet as ssnet
         import sshuttle.client as client
         import sshuttle.server as server
@@ -244,6 +321,13 @@ class World:
         self.ssnet, self.client, self.server, self.helpers = ssnet, client, server, helpers
         self.rng = rng
         self.maxc, self.lbs, self.latency = maxc, lbs, latency
+        self.platform = platform
+        self.bad_accepts = 0
+        self.unserved = []          # captured connections that got no flow although nothing excused it
+        self.guard_missed = []      # connections to the client's own listener that were tunnelled all the same
+        self.model_cut = None       # number of snapshots the model is compared on (None: all)
+        self.log_cut = None
+        self.post_crash = {"c": None, "s": None}   # how an end's loop died after the cut
         self.noise = None
         self.eager_quiet = False
         self.log = []               # micro-step events (model input)
@@ -253,7 +337,6 @@ class World:
         self.rec = {}
         self.cur_side = "c"
         self.socks = []
-        self.pending_accept = []
         self.crash = None
         self.eager = False      # drain phase: the environment never stalls
         self.fid = {"c": {}, "s": {}}     # id(proxy) -> fid
@@ -271,9 +354,22 @@ class World:
         ssnet, client, server, helpers = self.ssnet, self.client, self.server, self.helpers
         w = self
         sv = self.saved
-        sv["ssnet"] = {k: getattr(ssnet, k) for k in ("MAX_CHANNEL", "LATENCY_BUFFER_SIZE", "set_non_blocking_io", "select", "socket", "runonce")}
+        sv["ssnet"] = {k: getattr(ssnet, k) for k in ("MAX_CHANNEL", "LATENCY_BUFFER_SIZE", "set_non_blocking_io", "select", "socket", "runonce", "sys", "errno")}
         sv["Proxy"] = (ssnet.Proxy.__init__, ssnet.Proxy.callback, ssnet.Proxy.pre_select)
         sv["client"] = (client.islocal,)
+        if self.platform == "win32":
+            # the Windows branches of try_connect: ssnet sees sys.platform == 'win32' and an errno module that
+            # knows WSAEWOULDBLOCK (the real one only has it on Windows)
+            class SysWin:
+                platform = "win32"
+                exc_info = staticmethod(sys.exc_info)
+
+            class ErrnoWin:
+                WSAEWOULDBLOCK = 10035
+            for k in dir(errno):
+                if not k.startswith("__"):
+                    setattr(ErrnoWin, k, getattr(errno, k))
+            ssnet.sys, ssnet.errno = SysWin, ErrnoWin
         sv["server"] = (server.io, server.sys)
         sv["helpers_log"] = helpers.log
         ssnet.MAX_CHANNEL = self.maxc
@@ -300,12 +396,12 @@ class World:
         def mk_socket(family=real_socket.AF_INET, *a):
             plan = w.dst_plans.pop(0) if w.dst_plans else {"connect": ["d"], "tag": 99}
             s = FSock(w, "dst%d" % len(w.dst_socks), plan)
+            s.family = family
             w.socks.append(s)
             w.dst_socks.append(s)
             return s
         SockShim.socket = staticmethod(mk_socket)
         ssnet.socket = SockShim
-        client.islocal = lambda ip, fam: False
         helpers.log = lambda s: None
         ssnet.log = lambda s: None
         client.log = lambda s: None
@@ -365,20 +461,42 @@ class World:
         self.cur_side = "c"
         cm = ssnet.Mux(cr, cw)
         self.mux["c"] = cm
-        self.listener = FSock(self, "listener", {})
+        self.listener = FSock(self, "listener", {"family": AF4})
+        self.listener6 = FSock(self, "listener6", {"family": AF6})
         self.socks.append(self.listener)
+        self.socks.append(self.listener6)
 
         class Method:
             @staticmethod
             def get_tcp_dstip(sock):
-                return ("10.0.0.1", 80)
+                d = sock.plan.get("dial", DEFAULT_DIAL)
+                return (d[0], d[1])
         ch = [cm]
         self.handlers["c"] = ch
 
-        def on_listener(sock):
-            w.log.append("A:%s" % hx(b"%d,%s,%d" % (real_socket.AF_INET, b"10.0.0.1", 80)))
-            client.onaccept_tcp(sock, Method, cm, ch)
-        ch.append(ssnet.Handler([self.listener], on_listener))
+        def accept_tcp(listener, method, mux, handlers):
+            # what client._main registers is onaccept_tcp itself; this wrapper only logs the model's event
+            nxt = listener.queue[0][0] if listener.queue else None
+            dial = nxt.plan.get("dial", DEFAULT_DIAL) if nxt is not None else DEFAULT_DIAL
+            own = own_address(dial)
+            if not own:
+                w.log.append("A:%s" % hx(b"%d,%s,%d" % (dial[2], dial[0].encode("ascii"), dial[1])))
+            before = len(w.prox["c"])
+            free = [i for i in range(1, min(w.maxc, 1024) + 1) if not mux.channels.get(i)]
+            try:
+                return client.onaccept_tcp(listener, method, mux, handlers)
+            finally:
+                if nxt is not None and nxt not in [q[0] for q in listener.queue]:
+                    nxt.served = len(w.prox["c"]) > before
+                    if own and nxt.served:
+                        w.guard_missed.append(nxt.name)
+                    if not own and not nxt.served and free:
+                        w.unserved.append(nxt.name)
+        # the real plumbing between a ready listening socket and the accept function (both address families)
+        ml = client.MultiListener()
+        ml.bind_called = True
+        ml.v4, ml.v6 = self.listener, self.listener6
+        ml.add_handler(ch, accept_tcp, Method, cm)
         # --- server end: run the real server.main until its first runonce
         sr, sw_ = RW(self.cs, self.sc, "r"), RW(self.cs, self.sc, "w")
 
@@ -466,10 +584,10 @@ class World:
         rr, ww = [], []
         for s in r:
             if s is m.rfile:
-                if inpipe.buf and (timeout == 0 or self.eager or rng.random() < 0.8):
+                if inpipe.readable() and (timeout == 0 or self.eager or rng.random() < 0.8):
                     rr.append(s)
-            elif s is self.listener:
-                if self.pending_accept:
+            elif s is self.listener or s is self.listener6:
+                if s.queue:
                     rr.append(s)
             elif self.eager or rng.random() < 0.75:
                 rr.append(s)
@@ -503,8 +621,14 @@ class World:
         s = FSock(self, "app%d" % len(self.app_socks), app_plan)
         self.socks.append(s)
         self.app_socks.append(s)
-        self.dst_plans.append(dst_plan)
-        self.pending_accept.append((s, ("1.2.3.4", 5000 + len(self.app_socks))))
+        if not own_address(app_plan.get("dial", DEFAULT_DIAL)):
+            self.dst_plans.append(dst_plan)      # (a connection to the client's own listener never reaches the server)
+        lst = self.listener6 if s.family == AF6 else self.listener
+        lst.queue.append((s, ("1.2.3.4", 5000 + len(self.app_socks))))
+
+    @property
+    def pending_accept(self):
+        return self.listener.queue + self.listener6.queue
 
     def iterate(self, side):
         """one iteration of the main loop of `side`: runonce (+ check_fullness)"""
@@ -522,9 +646,37 @@ class World:
                 self.log.append("K:%s" % side)
                 self.mux[side].check_fullness()
         except Exception as e:
-            self.crash = type(e).__name__
-            # a half-written log entry (None) stays where the exception interrupted it
-        self.snapshot()
+            if self.model_cut is None:
+                self.crash = type(e).__name__
+                # a half-written log entry (None) stays where the exception interrupted it
+            else:
+                self.post_crash[side] = type(e).__name__
+        if self.model_cut is None:
+            self.snapshot()
+
+    def end_tunnel(self, te):
+        """the tunnel itself ends while flows are open: the peer closes it (read() answers b""), reading it fails
+        (OSError other than EAGAIN), or the peer sends the EXIT message.  The stream model has no such event: the
+        model is compared on everything before this moment, what follows is judged on the implementation alone.
+        The main loops are the ones of the code: client `while 1: runonce`, server `while mux.ok: runonce`."""
+        self.model_cut, self.log_cut = len(self.real_snaps), len(self.log)
+        side = te["side"]
+        other = "s" if side == "c" else "c"
+        inpipe = self.sc if side == "c" else self.cs
+        if te["kind"] == "eof":
+            inpipe.eof = True
+        elif te["kind"] == "error":
+            inpipe.fail = te["errno"]
+        else:
+            inpipe.buf += struct.pack("!ccHHH", b"S", b"S", 0, 0x4200, 0)
+        self.eager = True
+        for rnd in range(te.get("rounds", 10)):
+            for sd in ((side, other) if rnd % 2 == 0 else (other, side)):
+                if self.post_crash[sd]:
+                    continue                    # that process is gone
+                if sd == "s" and not self.mux["s"].ok:
+                    continue                    # server.main has left its loop
+                self.iterate(sd)
 
     def snapshot(self):
         self.log.append("S")
@@ -578,7 +730,7 @@ class World:
             self.hist_str("c"), self.hist_str("s"))
 
     def model_line(self):
-        evs = [e for e in self.log if e is not None]
+        evs = [e for e in (self.log if self.log_cut is None else self.log[:self.log_cut]) if e is not None]
         return "RUN %d %d %s" % (self.maxc, self.lbs, " ".join(evs))
 
     # ------------------------------------------------------------------ oracles (implementation only)
@@ -603,7 +755,7 @@ class World:
 def compare(ctx, world, model_out, label):
     """compare the real snapshots with the model's; returns True if equal"""
     parts = model_out.split(" ## ") if model_out else []
-    real = list(world.real_snaps)
+    real = list(world.real_snaps if world.model_cut is None else world.real_snaps[:world.model_cut])
     ok = True
     for i, rs in enumerate(real):
         if i >= len(parts):
@@ -673,6 +825,12 @@ def gen_case(rng, profile, quick=True):
         c["iters"] = 30
         c["burst"] = True
         big = False
+    if profile == "tunnel":
+        # the tunnel itself ends while flows are open (see World.end_tunnel)
+        nflows = rng.choice([1, 2, 3, 4])
+        c["tunnel_end"] = {"kind": rng.choice(["eof", "eof", "error", "error", "exit"]), "side": rng.choice("cs"),
+                           "at": rng.randint(2, 40),
+                           "errno": rng.choice([errno.EIO, errno.ECONNRESET, errno.EBADF, errno.ENOMEM, errno.EPIPE])}
     if profile == "reuse":
         # an application that goes away mid-download (its socket stops accepting data and reports
         # end-of-stream) while the destination still has a lot queued towards it, followed at once by
@@ -710,13 +868,37 @@ def gen_case(rng, profile, quick=True):
                    "fault": ("send", rng.randint(0, 4), rng.choice([errno.EPIPE, errno.ECONNRESET])), "faulty": True}
             dst = {"tag": 2, "data": rng.choice([32769, 65536, 100000]), "close": rng.random() < 0.5, "connect": ["d"],
                    "p_recv": 1.0, "chunks": [2048, 4096, 65536]}
-        if profile == "fault" and rng.random() < 0.75:
-            kind = rng.choice(["refused", "recv", "send", "recv", "send", "shutdown"])
+        # where the application dialled: mostly one IPv4 destination; sometimes IPv6 (second listener), other
+        # ports, and foreign hosts on the very port the client listens on (the self-connection guard has to
+        # ask the kernel, helpers.islocal, and must let them through); rarely the client's own listener
+        r = rng.random()
+        if r < 0.10:
+            app["dial"] = ["2001:db8::%x" % rng.randint(1, 0xffff),
+                           rng.choice([22, 443, 65535] + ([LISTEN_PORT] * 3 if v6_available() else [])), AF6]
+        elif r < 0.22:
+            app["dial"] = ["192.0.2.%d" % rng.randint(1, 254), rng.choice([1, 22, LISTEN_PORT, LISTEN_PORT, 65535]), AF4]
+        elif r < 0.24 and profile not in ("many", "reuse"):
+            app["dial"] = ["127.0.0.1", LISTEN_PORT, AF4]
+        if profile == "fault" and rng.random() < 0.8:
+            kind = rng.choice(["refused", "recv", "send", "recv", "send", "shutdown", "peername", "bsd", "bsd"])
             who = rng.choice([app, dst])
             if kind == "refused":
                 dst["connect"] = rng.choice([["n"], ["p", "n"], ["p", "p", "n"]])
                 dst["connect_errno"] = rng.choice(NET)
                 dst["faulty"] = True
+            elif kind == "bsd":
+                # the outcome of a pending connect is reported as EINVAL + SO_ERROR (BSD), or the platform is Windows
+                dst["connect"] = rng.choice([["p", "d"], ["p", "p", "d"], ["p", "n"], ["p", "p", "p", "n"], ["p", "k"]])
+                dst["einval"] = True
+                if dst["connect"][-1] == "n":
+                    dst["connect_errno"] = rng.choice(NET)
+                    dst["faulty"] = True
+            elif kind == "peername":
+                # the application reset its connection right after it was accepted: no peer name any more,
+                # and the first read fails
+                app["peername_errno"] = rng.choice([errno.ENOTCONN, errno.EINVAL, errno.ENOTSOCK])
+                app["fault"] = ("recv", 0, errno.ECONNRESET)
+                app["faulty"] = True
             elif kind == "shutdown":
                 who["shutdown_fails"] = True
                 who["faulty"] = True
@@ -725,13 +907,20 @@ def gen_case(rng, profile, quick=True):
                 who["fault"] = (kind, rng.randint(0, 6), e)
                 who["faulty"] = True
         c["flows"].append((app, dst))
+    if profile == "fault":
+        r = rng.random()
+        if r < 0.12:
+            c["platform"] = "win32"
+        elif r < 0.17 and c["flows"]:
+            # an errno try_connect has never heard of: by design the process gives up (the model says so too)
+            c["flows"][-1][1]["connect"] = rng.choice([["x"], ["p", "x"]])
     return c
 
 
 def run_case(ctx, case):
     import random
     rng = random.Random(case["seed"])
-    w = World(rng, case["maxc"], case["lbs"], case["latency"])
+    w = World(rng, case["maxc"], case["lbs"], case["latency"], case.get("platform", "linux"))
     w.case = case
     w.noise = case.get("noise")
     if w.noise:
@@ -751,8 +940,11 @@ def run_case(ctx, case):
                     w.iterate(side)
                     if it > 12 and not w.mux[side].outbuf:
                         break
+        te = case.get("tunnel_end")
         for it in range(case["iters"]):
             if w.crash:
+                break
+            if te and it >= te["at"] and w.prox["c"]:
                 break
             if pending and rng.random() < 0.3:
                 a, d = pending.pop(0)
@@ -760,6 +952,10 @@ def run_case(ctx, case):
                 w.iterate("c")
             else:
                 w.iterate(rng.choice("cs"))
+        if te and not w.crash:
+            w.end_tunnel(te)
+            w.calm = 0
+            return w
         # drain: nothing new arrives; alternate until quiescent for a while
         calm = 0
         w.eager = True
@@ -795,9 +991,22 @@ def check_oracles(w):
     out = {"C01": [], "C02": [], "C06": [], "C08": [], "C09": []}
     stale = getattr(w, "model_stale", False)
     stuck_dirs = []
+    te = w.case.get("tunnel_end") if w.model_cut is not None else None
+    # every captured connection gets a flow, unless no identifier is free or it is aimed at the client's own listener
+    for name in w.unserved:
+        out["C01"].append(("a captured connection to a foreign destination was neither tunnelled nor shed for want of "
+                           "an identifier: it was dropped at accept", {"socket": name, "listen_port": LISTEN_PORT}))
+    if w.bad_accepts:
+        out["C01"].append(("accept() was called on a listening socket on which no connection was waiting while the "
+                           "captured connection on the other listener was left unserved", {"times": w.bad_accepts}))
     for f, app, dst in w.flows():
         if dst is None:
             continue
+        dial = app.plan.get("dial", DEFAULT_DIAL)
+        if not stale and dst.connected_to is not None and (
+                tuple(dst.connected_to[:2]) != (dial[0], dial[1]) or (dst.family == AF4) != (dial[2] == AF4)):
+            out["C01"].append(("the server connected this flow to another destination than the one the application dialled",
+                               {"flow": f, "dialled": dial, "connected_to": list(dst.connected_to), "family": int(dst.family)}))
         if not stale:
             if not app.rd.startswith(dst.wr):
                 out["C01"].append(("bytes handed to the destination are not a prefix of what the application wrote",
@@ -805,7 +1014,7 @@ def check_oracles(w):
             if not dst.rd.startswith(app.wr):
                 out["C01"].append(("bytes handed back to the application are not a prefix of what the destination wrote",
                                    {"flow": f, "app_got": digest(app.wr), "dst_wrote": digest(dst.rd)}))
-        if stale or faulty_flow(app, dst) or w.crash:
+        if stale or faulty_flow(app, dst) or w.crash or te:
             continue
         if dst.shutdown_called and not (dst.wr == app.rd and app.eof_seen):
             out["C02"].append(("destination saw end-of-stream before all data / before the application closed",
@@ -884,6 +1093,34 @@ def check_oracles(w):
                                    "and was never dispatched", det))
     if w.crash and not any(d.get("connect", [""])[-1] == "x" for _, d in w.case["flows"]):
         out["C08"].append(("an event loop died: %s" % w.crash, {"exception": w.crash}))
+    if te:
+        # the tunnel ended under open flows: the end that noticed leaves its loop the way the code provides for
+        # (Mux.ok false after end-of-stream, Fatal after a read error), never through another exception, and the
+        # other end keeps running; the per-flow prefix oracles above have been evaluated on everything delivered since
+        side = te["side"]
+        other = "s" if side == "c" else "c"
+        inpipe = w.sc if side == "c" else w.cs
+        det = {"tunnel_end": te, "open_flows": len(w.prox["c"]), "loop_of_that_end": w.post_crash[side],
+               "loop_of_the_other_end": w.post_crash[other]}
+        how = w.post_crash[side]
+        if te["kind"] == "eof":
+            if how:
+                out["C08"].append(("the peer closed the tunnel while flows were open: the main loop ended through %s "
+                                   "instead of noticing the end of the stream" % how, det))
+            elif inpipe.eof_reads and w.mux[side].ok:
+                out["C08"].append(("the peer closed the tunnel and the end of the stream was read, yet the multiplexer "
+                                   "still counts as alive: the main loop never ends", det))
+        elif te["kind"] == "error":
+            if how is None and inpipe.fail_reads:
+                out["C08"].append(("reading the tunnel failed with errno %d and the main loop carried on" % te["errno"], det))
+            elif how not in (None, "Fatal"):
+                out["C08"].append(("reading the tunnel failed with errno %d: the main loop ended through %s instead of "
+                                   "Fatal" % (te["errno"], how), det))
+        elif how:
+            out["C08"].append(("the peer's EXIT message made the main loop end through %s" % how, det))
+        if w.post_crash[other]:
+            out["C08"].append(("the tunnel ended at one end and the main loop of the OTHER end died: %s"
+                               % w.post_crash[other], det))
     for side in ("c", "s"):
         seen = {}
         m = w.mux[side]
@@ -918,7 +1155,8 @@ STREAM_TB = [
     "harness/props/stream_common.py: fake sockets/pipes, the micro-step logger wrapped around the real Proxy/Mux methods, and the normalisation that removes the server's initial empty ROUTES message",
 ]
 STREAM_ASSUMPTIONS = [
-    "connect() never reports EINVAL (the pre-2.5.1 BSD work-around path of try_connect is not exercised)",
+    "connect() reports EINVAL only for a socket whose earlier attempt answered in-progress, and SO_ERROR then holds the outcome (the BSD work-around path of try_connect); Windows is simulated by sys.platform and errno.WSAEWOULDBLOCK as seen by ssnet only",
+    "helpers.islocal runs on real kernel sockets (bind to port 0): 192.0.2.0/24 and 2001:db8::/32 are not addresses of this machine, 127.0.0.1 is",
     "Mux.fill is only entered when the pipe has data (read() returning None would raise TypeError in a debug2 argument)",
     "ghost flow numbers (fid) are attached by the model only; the correspondence compares everything except them",
 ]
@@ -989,6 +1227,23 @@ def stream_check(ctx, prop, profiles, n_quick, n_thorough):
             ctx.count("cases_with_injected_fault")
         if case["maxc"] < 100:
             ctx.count("cases_with_tiny_identifier_space")
+        if case.get("platform", "linux") != "linux":
+            ctx.count("cases_platform_" + case["platform"])
+        if case.get("tunnel_end"):
+            ctx.count("tunnel_end_%s_%s_%s" % (case["tunnel_end"]["kind"], case["tunnel_end"]["side"],
+                                               "reached" if w.model_cut is not None else "not_reached"))
+        for a, d in case["flows"]:
+            if d.get("einval"):
+                ctx.count("flows_connect_outcome_via_EINVAL_and_SO_ERROR")
+            if a.get("peername_errno"):
+                ctx.count("flows_without_peer_name_at_accept")
+            if d.get("connect", [""])[-1] == "x":
+                ctx.count("flows_connect_errno_never_heard_of")
+            dl = a.get("dial")
+            if dl:
+                ctx.count("dial_%s_%s" % ("v6" if dl[2] == AF6 else "v4", "own_listener" if own_address(dl) else
+                                          "foreign_on_listen_port" if dl[1] == LISTEN_PORT else "other_port"))
+        ctx.count("connections_shed_at_accept", sum(1 for a in w.app_socks if a.served is False))
         if not case["latency"]:
             ctx.count("cases_latency_off")
         ctx.case((case["seed"], profile), nontrivial=nflows > 0,
